@@ -251,8 +251,16 @@ def run(prop, tier, seed):
         f"{len(drifts)} disagreement(s), {time.time() - t2:.1f}s")
     if records != s["verdict_records"]:
         raise vlib.ToolError(f"verdict records: driver wrote {s['verdict_records']}, TLC saw {records}")
+    # Opt-in (VERIF_C08_STRICT=1): "every field is well-formed" judged against the layout table as a
+    # property-level clause, but only when the table has just been corroborated by byte agreement with
+    # the real encoder on every enumerated message.  Off by default: the table is hand-transcribed.
+    strict = os.environ.get("VERIF_C08_STRICT") == "1" and s["byte_agreement"] == s["vectors"]
     seen = {}
     for (why, case, ok) in drifts:
+        if strict and why.startswith("real accepts, reference rejects"):
+            verdict.violation("real parser accepted a frame with a malformed field (layout table): " + why.split(": ", 1)[1],
+                              dict(case=case, source="trace validation against DecMsg"))
+            continue
         seen[why] = seen.get(why, 0) + 1
         if seen[why] <= 3:
             log(f"DRIFT property={prop} {why}: tag={case['tag']} real_accepted={ok} frame={case['frame'][:80]}")
